@@ -99,6 +99,25 @@ def gen(rng, thorough):
     for v in VALUES:
         for e in ("/r/a", "/r/a/@x", "/", "//b", "/r"):
             cases.append(("xe", base, "", e, v))
+    # nodes that read alike (equal names, equal values) selected together: each is still its own node
+    twins = ["<list><item cur='eur'>1</item><item cur='eur'>2</item><total cur='usd'>3</total><item cur='eur'>1</item></list>",
+             "<r><a>old</a><a>old</a><b>old</b><a/><a/><!--c--><!--c--><?p d?><?p d?></r>"]
+    twinsel = ["//item/@cur | //total/@cur", "//a | //b", "//a/text() | //b/text()", "//item | //total", "(//item | //total)/@cur",
+               "//a[not(node())] | //b", "//@cur", "//item[@cur='eur']/@cur | //nosuch", "//comment() | //processing-instruction()",
+               "//a[1] | //a[2] | //a[3]", "//item[1]/@cur | //item[2]/@cur | //item[3]/@cur", "//text()"]
+    for td in twins:
+        for e in twinsel:
+            cases.append(("xq", td, "", e, ""))
+            for v in ("gbp", "<k/>", ""):
+                cases.append(("xe", td, "", e, v))
+    # a default namespace bound by the caller (--setns xmlns=URI) qualifies unprefixed ELEMENT names only, however the
+    # attribute step is spelled
+    feed = "<feed xmlns='http://feed'><entry id='e1'>one</entry><entry id='e2' n='x'>two</entry><x xmlns=''><entry id='e3'/></x></feed>"
+    for bnd in ("=http://feed", "=http://feed;p=http://feed", "", "=urn:other"):
+        for e in ("/feed/entry/@id", "//entry[@id='e2']", "//entry/@id", "//entry/attribute::id", "//@id", "//*[@id]", "//entry[@n]/@n",
+                  "//entry", "//p:entry/@id", "//x/entry/@id", "//entry[attribute::id='e1']"):
+            cases.append(("xq", feed, bnd, e, ""))
+            cases.append(("xe", feed, bnd, e, "x"))
     # attributes supplied by attribute-list defaults
     for dd in DEFDOCS:
         for e in DEFSEL:
